@@ -57,8 +57,9 @@ Definition check_verdict (k : case) : bool :=
   negb (vclose (c_adom k) (c_ran k) && vclose (c_aran k) (c_dom k))
   || Bool.eqb (identity_on (c_dom k) (c_ran k) (c_xs k) (c_Ax k) (c_ys k) (c_By k)) (c_holds k).
 
-(* the structural premise [wf] of the tree theorems holds for the expression read off the object *)
-Definition check_wf (k : case) : bool := wfb (c_e k).
+(* the structural premise [wf] of the tree theorems and the non-zero-divisor premise of the transfer
+   theorems hold for the expression read off the object *)
+Definition check_wf (k : case) : bool := wfb (c_e k) && divsb (c_e k) && divsb (adjoint (c_e k)).
 Definition check (k : case) : bool :=
   check_wf k && check_spaces k && check_forward k && check_adjoint k && check_double k && check_verdict k.
 End Corr.
